@@ -20,6 +20,7 @@ EXPLANATION = (
     "(R3.4) the registry key (name, hash) is an injective encoding of the field list - decided on the hash input's structure; "
     "(R3.5) readers register every descriptor frame unconditionally before decoding later frames. NOT decided: contents of "
     "long interleaved histories (follows from R3.1-R3.5 under the assumption that msgpack calls the default hook depth-first)."
+    " Rules added after the sixth blind round: (R3.7) JsonfileReader obtains every object through JsonRecordPacker.unpack, which passes object_hook=self.unpack_obj (records nested in record fields are decoded)."
 )
 RULE_SUMMARY = "instances: registry sites, guard/register pairs, handler chains, reader branches; non-trivial = dominance / call-chain resolved"
 
